@@ -1479,22 +1479,23 @@ Qed.
 (* ================================================================================== *)
 
 (* ---- the requests this client encodes are longer than its coordinator lookups ---------------- *)
+Ltac len_solve :=
+  unfold ulen in *; unfold enc_i16, enc_i32, enc_i64 in *;
+  repeat (progress (rewrite ?app_length, ?be_enc_length in *; cbn [length] in * )); lia.
+
 Lemma enc_str_len x g : enc_str x = Ok g -> ulen g = 2 + ulen x.
 Proof.
-  unfold enc_str. destruct (ulen x <=? i16_max); [|discriminate]. intros H. inversion H; subst.
-  unfold ulen. rewrite app_length. unfold enc_i16. rewrite be_enc_length. lia.
+  unfold enc_str. destruct (ulen x <=? i16_max); [|discriminate]. intros H. injection H as <-. len_solve.
 Qed.
 Lemma enc_header_len k v corr cid hd : enc_header k v corr cid = Ok hd -> ulen hd = 10 + ulen cid.
 Proof.
   unfold enc_header. destruct (enc_str cid) as [c| |] eqn:E; cbn [bind]; try discriminate.
-  intros H. inversion H; subst. apply enc_str_len in E. unfold ulen in *. rewrite !app_length.
-  unfold enc_i16, enc_i32. rewrite !be_enc_length. lia.
+  intros H. injection H as <-. apply enc_str_len in E. len_solve.
 Qed.
 Lemma enc_array_len {A} (f : A -> res bytes) xs b : enc_array f xs = Ok b -> 4 <= ulen b.
 Proof.
   unfold enc_array. destruct (ulen xs <=? i32_max); [|discriminate].
-  destruct (enc_all f xs) as [body| |]; cbn [bind]; try discriminate. intros H. inversion H; subst.
-  unfold ulen. rewrite app_length. unfold enc_i32. rewrite be_enc_length. lia.
+  destruct (enc_all f xs) as [body| |]; cbn [bind]; try discriminate. intros H. injection H as <-. len_solve.
 Qed.
 
 Lemma commit_req_gc_short corr cid group version tps p :
@@ -1505,8 +1506,8 @@ Proof.
   destruct (enc_str group) as [g| |] eqn:Eg; cbn [bind]; try discriminate.
   destruct (enc_str []) as [empty| |] eqn:Ee; cbn [bind]; try discriminate. cbv zeta.
   destruct (enc_tps _ tps) as [b| |] eqn:Eb; cbn [bind]; try discriminate.
-  intros H. inversion H; subst. apply enc_header_len in Eh. apply enc_str_len in Eg. apply enc_array_len in Eb.
-  unfold gc_short. rewrite frame_ulen. unfold ulen in *. rewrite !app_length. lia.
+  intros H. injection H as <-. apply enc_header_len in Eh. apply enc_str_len in Eg. apply enc_array_len in Eb.
+  unfold gc_short. rewrite frame_ulen. len_solve.
 Qed.
 Lemma fetch_req_gc_short corr cid group version tps p :
   enc_offset_fetch_req corr cid group version tps = Ok p -> gc_short (frame p) cid group.
@@ -1515,8 +1516,8 @@ Proof.
   destruct (enc_header _ _ _ _) as [hd| |] eqn:Eh; cbn [bind]; try discriminate.
   destruct (enc_str group) as [g| |] eqn:Eg; cbn [bind]; try discriminate.
   destruct (enc_tps _ tps) as [b| |] eqn:Eb; cbn [bind]; try discriminate.
-  intros H. inversion H; subst. apply enc_header_len in Eh. apply enc_str_len in Eg. apply enc_array_len in Eb.
-  unfold gc_short. rewrite frame_ulen. unfold ulen in *. rewrite !app_length. lia.
+  intros H. injection H as <-. apply enc_header_len in Eh. apply enc_str_len in Eg. apply enc_array_len in Eb.
+  unfold gc_short. rewrite frame_ulen. len_solve.
 Qed.
 
 (* ---- the encoders never produce the model's out-of-fuel error -------------------------------------- *)
